@@ -37,6 +37,78 @@ def _cells(cs):
     return clist(cs, lambda c: f"({cq(c[0])}, {cq(c[1])})")
 
 
+# isometries of the plane into 3-D with rational entries (images of e_x, e_y, common divisor)
+PLANES = [
+    ((0, 1, 0), (0, 0, 1), 1),      # x = const
+    ((1, 0, 0), (0, 0, 1), 1),      # y = const
+    ((0, 0, 1), (0, 1, 0), 1),      # x = const, other orientation
+    ((1, 2, 2), (2, 1, -2), 3),
+    ((2, 3, 6), (3, -6, 2), 7),
+    ((3, 4, 0), (0, 0, 5), 5),
+    ((1, 0, 0), (0, 1, 0), 1),      # the xy-plane
+]
+
+
+def _tri_grid(spec, plane, org):
+    """triangle grid of the unit square (structured or Delaunay) embedded in a plane"""
+    if "structured" in spec:
+        g = pp.StructuredTriangleGrid(np.array(spec["structured"]), np.array([1.0, 1.0]))
+    else:
+        g = pp.TriangleGrid(np.array(spec["points"], dtype=float))
+    ex, ey, nr = PLANES[plane]
+    p2 = g.nodes[:2].copy()
+    ex, ey = np.array(ex, dtype=float) / nr, np.array(ey, dtype=float) / nr
+    g.nodes = (np.array(org, dtype=float).reshape((3, 1))
+               + np.outer(ex, p2[0]) + np.outer(ey, p2[1]))
+    g.compute_geometry()
+    return g
+
+
+def _kblock(rec):
+    return ("{| kb_vnew := " + clist(rec["v_new"], cq) + "; kb_vold := " + clist(rec["v_old"], cq)
+            + "; kb_isect := " + _mat(rec["isect"]) + " |}")
+
+
+class _Capture2d:
+    """records, for every match_2d call, the overlap list of triangulations and the volumes"""
+
+    def __enter__(self):
+        self.calls = []
+        self._m2 = pp.match_grids.match_2d
+        self._tr = pp.intersections.triangulations
+        outer = self
+
+        def tri(*a):
+            r = outer._tr(*a)
+            outer._last = [[int(i), int(j), float(w)] for i, j, w in r]
+            return r
+
+        def m2(new_g, old_g, tol, scaling=None):
+            r = outer._m2(new_g, old_g, tol, scaling)
+            outer.calls.append({"scaling": scaling, "isect": outer._last,
+                                "v_new": [float(v) for v in new_g.cell_volumes],
+                                "v_old": [float(v) for v in old_g.cell_volumes]})
+            return r
+
+        pp.intersections.triangulations = tri
+        pp.match_grids.match_2d = m2
+        return self
+
+    def __exit__(self, *a):
+        pp.intersections.triangulations = self._tr
+        pp.match_grids.match_2d = self._m2
+
+    def pairs(self):
+        """the calls come in (averaged, integrated) pairs with the same overlaps"""
+        out = []
+        assert len(self.calls) % 2 == 0
+        for a, b in zip(self.calls[0::2], self.calls[1::2]):
+            assert a["scaling"] == "averaged" and b["scaling"] == "integrated"
+            assert a["isect"] == b["isect"]
+            out.append(a)
+        return out
+
+
 def _grid_cells(g, k):
     """cells of a 1-D grid as pairs of the coordinate k of their two nodes (the model's input)"""
     cn = g.cell_nodes().tocsc()
@@ -50,7 +122,7 @@ class C26(Prop):
     props_file = "Props/C26.v"
     preamble = ("From Coq Require Import List QArith.\nImport ListNotations.\n"
                 "From PP Require Import Model.C33 Model.C26.\nOpen Scope Q_scope.\n")
-    n_cases = (80, 200)
+    n_cases = (60, 160)
     design_ref = "DESIGN.md §5 C26"
     level_text = (
         "P-core.  Coq theorems over an exact-rational transcription of MortarGrid._init_projections, "
@@ -86,7 +158,12 @@ class C26(Prop):
             "fracture grid (update_secondary) by random non-matching 1-D grids with nodes in Z/64 of "
             "the fracture length (also reversed node order, identical grids), replace the 2-D grid "
             "(update_primary; oracle only); all eight projection matrices dumped after construction "
-            "and after every operation.  Non-trivial = at least one replacement by a non-matching grid.")
+            "and after every operation.  2-D mortar grids: two-sided MortarGrids over triangle grids "
+            "of the unit square embedded in x=const / y=const / rationally rotated planes (3 per quick "
+            "run) and one real simplex 3-D md-grid with a fracture plane (gmsh), mortar sides and "
+            "secondary replaced by non-matching triangle grids (uniform structured, graded tensor "
+            "lattices, random Delaunay); the overlap areas of every match_2d call are captured and "
+            "handed to the model as data together with a Coq check of the C33 area contract.  Non-trivial = at least one replacement by a non-matching grid.")
     trusted = ["the harness reads the inputs of the modelled functions off the real objects "
                "(primary_secondary matrix and face_duplicate_ind captured at MortarGrid construction, "
                "node coordinates of the side grids)",
@@ -104,7 +181,68 @@ class C26(Prop):
             b.reverse()
         return b
 
+    # -- 2-D mortar grids (fracture planes in 3-D) ---------------------------------------
+    def _spec2d(self, rng, tier):
+        r = rng.random()
+        if r < 0.35:
+            n = rng.randint(1, 3 if tier == "quick" else 4)
+            return {"structured": [n, rng.choice([n, n, rng.randint(1, 3)])]}
+        if r < 0.75:
+            # tensor lattice graded towards one side (Delaunay)
+            def axis():
+                k = rng.randint(2, 4)
+                xs = [0.0] + [2.0 ** -e for e in range(k, -1, -1)]
+                if rng.random() < 0.5:
+                    xs = sorted(1.0 - x for x in xs)
+                return xs
+            xs = axis()
+            ys = axis() if rng.random() < 0.4 else [0.0, rng.choice([0.25, 0.5, 0.75]), 1.0]
+            if rng.random() < 0.5:
+                xs, ys = ys, xs
+            pts = [(x, y) for x in xs for y in ys]
+            rng.shuffle(pts)
+            return {"points": [[x for x, _ in pts], [y for _, y in pts]]}
+        pts = {(0, 0), (16, 0), (0, 16), (16, 16)}
+        for _ in range(rng.randint(0, 4)):
+            pts.add((rng.randint(1, 15), rng.randint(1, 15)))
+        for _ in range(rng.randint(0, 3)):
+            t = rng.randint(1, 15)
+            pts.add(rng.choice([(t, 0), (t, 16), (0, t), (16, t)]))
+        pts = sorted(pts)
+        rng.shuffle(pts)
+        return {"points": [[x / 16 for x, _ in pts], [y / 16 for _, y in pts]]}
+
+    def _gen2d(self, rng, tier, real3d):
+        ops = []
+        for _ in range(rng.randint(1, 3 if tier == "quick" else 4)):
+            r = rng.random()
+            if r < 0.5:
+                which = rng.choice([["L"], ["R"], ["L", "R"], ["R", "L"]])
+                ops.append({"op": "mortar", "sides": {s_: self._spec2d(rng, tier) for s_ in which}})
+            elif r < 0.9:
+                ops.append({"op": "secondary", "spec": self._spec2d(rng, tier)})
+            else:
+                ops.append({"op": "mortar-same"})
+        case = {"kind": "m2d", "real3d": real3d, "ops": ops}
+        if real3d:
+            case["frac"] = rng.randrange(3)
+        else:
+            case.update({"plane": rng.randrange(len(PLANES)), "base": self._spec2d(rng, tier),
+                         "org": [rng.randint(-4, 4) / 2 for _ in range(3)],
+                         "fdi": rng.random() < 0.5})
+        return case
+
     def generate(self, rng, n, tier):
+        n2 = 3 if tier == "quick" else max(n // 10, 8)
+        n3 = 1 if tier == "quick" else 3
+        for case in self._gen1d(rng, n - n2 - n3, tier):
+            yield case
+        for _ in range(n2):
+            yield self._gen2d(rng, tier, False)
+        for _ in range(n3):
+            yield self._gen2d(rng, tier, True)
+
+    def _gen1d(self, rng, n, tier):
         for _ in range(n):
             simplex = rng.random() < 0.1
             nx, ny = rng.randint(2, 5), rng.randint(2, 5)
@@ -178,11 +316,102 @@ class C26(Prop):
     def _dump(self, intf, k):
         return {"mats": [_coords(getattr(intf, nm)()) for nm in NAMES],
                 "side_sizes": [int(g.num_cells) for g in intf.side_grids.values()],
-                "side_cells": [_grid_cells(g, k) for g in intf.side_grids.values()],
+                "side_cells": [_grid_cells(g, k) if g.dim == 1 else [[0.0, 0.0]] * g.num_cells
+                               for g in intf.side_grids.values()],
                 "shape": [int(x) for x in intf.primary_to_mortar_int().shape]
                 + [int(intf.secondary_to_mortar_int().shape[1])]}
 
+    def _run2d(self, case):
+        key = {"L": mgm.MortarSides.LEFT_SIDE, "R": mgm.MortarSides.RIGHT_SIDE}
+        grids_ok = []
+
+        def chk(g):
+            grids_ok.append(bool(g.cell_volumes.min() > 1e-9 and abs(g.cell_volumes.sum() - 1) < 1e-9))
+            return g
+
+        mdg = None
+        if case["real3d"]:
+            cap = []
+            orig = mgm.MortarGrid._init_projections
+
+            def wrapped(self_, ps, fdi=None):
+                cap.append((self_, sps.csc_matrix(ps, copy=True), None if fdi is None else
+                            [int(i) for i in np.atleast_1d(fdi)]))
+                return orig(self_, ps, fdi)
+
+            mgm.MortarGrid._init_projections = wrapped
+            try:
+                mdg, _ = pp.mdg_library.cube_with_orthogonal_fractures(
+                    "simplex", {"cell_size": 0.5}, fracture_indices=[case["frac"]])
+            finally:
+                mgm.MortarGrid._init_projections = orig
+            intf = mdg.interfaces(dim=2)[0]
+            _, ps, fdi = [c for c in cap if c[0] is intf][0]
+            plane = [0, 1, 6][case["frac"]]
+            org = [0.0, 0.0, 0.0]
+            org[case["frac"]] = 0.5
+            chk(mdg.interface_to_subdomain_pair(intf)[1])
+        else:
+            plane, org = case["plane"], case["org"]
+            g_sec = chk(_tri_grid(case["base"], plane, org))
+            n = g_sec.num_cells
+            cells = np.arange(n)
+            if case["fdi"]:
+                left, right = 2 * cells + 1, 2 * cells
+                fdi = [int(i) for i in right]
+            else:
+                left, right = 2 + cells, 2 + n + cells
+                fdi = None
+            ps = sps.csc_matrix((np.ones(2 * n, dtype=bool),
+                                 (np.r_[cells, cells], np.r_[left, right])), shape=(n, 2 * n + 3))
+            intf = mgm.MortarGrid(2, {key["L"]: g_sec.copy(), key["R"]: g_sec.copy()}, ps,
+                                  face_duplicate_ind=None if fdi is None else np.array(fdi))
+        sec, prim, data = pp.matrix_operations.sparse_array_to_row_col_data(ps)
+        out = {"ps": [[int(a), int(b), float(c)] for a, b, c in zip(sec, prim, data)],
+               "ps_shape": [int(ps.shape[0]), int(ps.shape[1])], "fdi": fdi,
+               "side_names": [s_.name for s_ in intf.side_grids.keys()], "k": 0,
+               "states": [self._dump(intf, 0)], "ops_done": []}
+        for o in case["ops"]:
+            done = {"op": o["op"]}
+            try:
+                with _Capture2d() as cap2:
+                    if o["op"] == "mortar":
+                        new = {key[s_]: chk(_tri_grid(sp, plane, org)) for s_, sp in o["sides"].items()}
+                        intf.update_mortar(new, 1e-6)
+                        order = list(o["sides"].keys())
+                    elif o["op"] == "mortar-same":
+                        new = {s_: g.copy() for s_, g in intf.side_grids.items()}
+                        intf.update_mortar(new, 1e-6)
+                        order = ["L" if s_ == key["L"] else "R" for s_ in new]
+                    else:
+                        g_new = chk(_tri_grid(o["spec"], plane, org))
+                        if mdg is not None:
+                            g_old = mdg.interface_to_subdomain_pair(intf)[1]
+                            mdg.replace_subdomains_and_interfaces(sd_map={g_old: g_new})
+                        else:
+                            intf.update_secondary(g_new, 1e-6)
+                        done["nsec"] = int(g_new.num_cells)
+                        order = None
+                pairs = cap2.pairs()
+                if order is None:
+                    done["blocks"] = pairs
+                else:
+                    assert len(pairs) == len(order)
+                    done["blocks"] = dict(zip(order, pairs))
+            except ValueError as e:
+                if "Check not satisfied" not in str(e):
+                    raise
+                out["ops_done"].append(done)
+                out["states"].append({"err": "MValueErr"})
+                break
+            out["ops_done"].append(done)
+            out["states"].append(self._dump(intf, 0))
+        out["valid2d"] = all(grids_ok)
+        return out
+
     def run_impl(self, case):
+        if case.get("kind") == "m2d":
+            return self._run2d(case)
         mdg, intf, rec = self._build(case)
         k = 0 if case["horizontal"] else 1
         _, ps, fdi = rec
@@ -309,6 +538,8 @@ class C26(Prop):
         return None
 
     def oracle(self, case, res):
+        if res.get("valid2d") is False:
+            return None   # a generated 2-D grid is not a tessellation of the fracture polygon
         # the number of covered primary faces per side must not change by mortar/secondary updates
         for i, st in enumerate(res["states"]):
             tag = "after construction" if i == 0 else f"after operation {i} ({res['ops_done'][i - 1]['op']})"
@@ -328,6 +559,14 @@ class C26(Prop):
         return n
 
     def _op(self, res, o):
+        if "blocks" in o:
+            if o["op"] == "secondary":
+                return f"(UpdSecondaryK {clist(o['blocks'], _kblock)} {cnat(o['nsec'])})"
+            per = []
+            for nm in res["side_names"]:
+                s = "L" if nm == "LEFT_SIDE" else "R"
+                per.append(coption(o["blocks"].get(s), _kblock))
+            return f"(UpdMortarK {clist(per)})"
         if o["op"] in ("mortar", "mortar-same"):
             per = []
             for nm in res["side_names"]:
